@@ -1303,16 +1303,29 @@ static void gen_stmt(Node *node) {
       char *ax = (node->cond->ty->size == 8) ? "%rax" : "%eax";
       char *di = (node->cond->ty->size == 8) ? "%rdi" : "%edi";
 
-      if (n->begin == n->end) {
+      char *dx = (node->cond->ty->size == 8) ? "%rdx" : "%edx";
+
+      if (n->begin == n->end && n->begin == (int)n->begin) {
         println("  cmp $%ld, %s", n->begin, ax);
+        println("  je %s", n->label);
+        continue;
+      }
+
+      // A label that does not fit in a sign-extended 32-bit immediate
+      // is compared through a register.
+      if (n->begin == n->end) {
+        println("  mov $%ld, %s", n->begin, dx);
+        println("  cmp %s, %s", dx, ax);
         println("  je %s", n->label);
         continue;
       }
 
       // [GNU] Case ranges
       println("  mov %s, %s", ax, di);
-      println("  sub $%ld, %s", n->begin, di);
-      println("  cmp $%ld, %s", n->end - n->begin, di);
+      println("  mov $%ld, %s", n->begin, dx);
+      println("  sub %s, %s", dx, di);
+      println("  mov $%ld, %s", (long)((uint64_t)n->end - (uint64_t)n->begin), dx);
+      println("  cmp %s, %s", dx, di);
       println("  jbe %s", n->label);
     }
 
